@@ -324,8 +324,11 @@ func (m *Message) SetType(t MessageType) {
 // Encode re-encodes message into m.Raw.
 func (m *Message) Encode() {
 	m.Raw = m.Raw[:0]
-	m.WriteHeader()
+	// Length is rebuilt by WriteAttributes. It has to be zero before the
+	// header is written: with no attributes nothing rewrites the length
+	// field afterwards and the header would keep the previous value.
 	m.Length = 0
+	m.WriteHeader()
 	m.WriteAttributes()
 }
 
